@@ -5,7 +5,7 @@ LEVEL = "proof"
 META = {
     "level": "proof",
     "technique": "contract-based deductive verification: sidecar pre/postconditions, frames and loop invariants on the real functions, VCs generated from their AST, discharged by z3/cvc5",
-    "level_text": 'Run time: Context data access, copy/isolation functions, kwargs and the reserved-name guard of the render entry point are verified for all dict contents; frame conditions prove that template code paths do not alter the data seen by other scopes. Compile time: for every visitor of _Identifiers (code, expressions, control lines, include, text, page, call, def; children under the induction hypothesis) the names demanded from the context are exactly those a node reads without binding them, minus context and what is already declared or local, and what a node binds becomes local / an argument; the stub of a top-level def hands on the body locals exactly when the template body has any.',
+    "level_text": 'Run time: Context data access, copy/isolation functions, kwargs and the reserved-name guard of the render entry point are verified for all dict contents; frame conditions prove that template code paths do not alter the data seen by other scopes. Compile time: for every visitor of _Identifiers (code, expressions, control lines, include, text, page, call, def; children under the induction hypothesis) the names demanded from the context are exactly those a node reads without binding them, minus context and what is already declared or local, and what a node binds becomes local / an argument; the stub of a top-level def hands on the body locals exactly when the template body has any; _Identifiers.__init__ lets a scope use what its parent declared, bound or took as arguments (nested: also what the parent demands) and binds no reserved name; write_variable_declares looks up exactly the names read and not bound, taken as arguments, `loop` or outside the limiting set - imported namespaces first, then the context, then UNDEFINED or (strict) NameError - and declares names from the context before the defs whose argument defaults may read them.',
     "level_note": 'Trusted: the pyvc encoding of Python semantics (DESIGN 3.1), z3/cvc5, assumed contracts listed in the evidence, the induction hypothesis for opaque render callables (R3). Native small-scope runs of the same contracts are bounded stand-ins, never counted as proved.',
 }
 
@@ -39,6 +39,28 @@ def grids(rep, tier):
     else:
         rep.add(Result("C04.reserved-grid", BOUNDED_OK, klass="B", backend="native-oracle", function="mako.codegen:_Identifiers / mako.runtime:Context", bound=bound2,
                        evaluations=n, time_s=time.time() - t1, detail="every assignment form and every render entry point raised NameConflictError"))
+
+    # names that only look bound: comprehension variables, lambda and function parameters, function locals
+    from vrf.bounded.scope_grid import nonbinding_cases, run_nonbinding
+    from vrf.core import Findings
+    t2 = time.time()
+    nb = nonbinding_cases()
+    outs3 = [o for o in pool_map(run_nonbinding, nb) if o]
+    known = {e["witness_class"]: e for e in Findings().all_known("C04")}
+    unknown = []
+    for o in outs3:
+        if o["kind"].endswith("-in-block") and ("comprehension" in o["kind"] or "generator" in o["kind"]) and "block-level-comprehension-variable" in known:
+            if not any(k.startswith(known["block-level-comprehension-variable"]["what"][:60]) for k in rep.known_confirmed):
+                rep.known_confirmed.append("%s [%s]" % (known["block-level-comprehension-variable"]["what"], o["template"].replace("\n", " / ")[:100]))
+        else:
+            unknown.append(o)
+    bound3 = "10 constructs that mention a name in a binding position without binding it in the enclosing scope x {body, def, block} x strict_undefined, followed by a read of the name"
+    if unknown:
+        rep.add(Result("C04.non-binding-grid", VIOLATED, klass="B", backend="native-oracle", function="mako.pyparser:FindIdentifiers / mako.codegen:_Identifiers", bound=bound3,
+                       evaluations=len(nb), detail="%s: %s" % (unknown[0]["kind"], unknown[0]["got"]), witness=unknown[0], replayed=True, replay={"failures": unknown[:3]}, time_s=time.time() - t2))
+    else:
+        rep.add(Result("C04.non-binding-grid", BOUNDED_OK, klass="B", backend="native-oracle", function="mako.pyparser:FindIdentifiers / mako.codegen:_Identifiers", bound=bound3,
+                       evaluations=len(nb), time_s=time.time() - t2, detail="the later read resolves to the context (%d cases of the known finding excluded)" % (len(outs3) - len(unknown))))
 
 
 def run(rep, tier):
